@@ -25,7 +25,7 @@ def run_variant(v, build=False, keep=False):
     scratch = tempfile.mkdtemp(prefix="hlv-", dir=os.environ.get("TMPDIR", "/tmp"))
     res = dict(prop=v["prop"], name=v["name"], kind=v["kind"], rule=v.get("rule", ""))
     try:
-        subprocess.run(["rsync", "-a", "--exclude", ".git", REPO + "/", scratch + "/"], check=True)
+        subprocess.run(["rsync", "-a", "--exclude", ".git", "--exclude", "/docs", REPO + "/", scratch + "/"], check=True)
         for (f, old, new) in v["edits"]:
             p = os.path.join(scratch, f)
             s = open(p).read()
